@@ -30,6 +30,9 @@ typedef CaseResult (*RunFn)(const Case &, RunCtx &);
 struct PropDef { const char *id; RunFn run; const char *ntRule; };
 const PropDef *findProp(const std::string &id);
 RunCtx makeCtx(const std::string &tag);
+// CPU-time guard around one case (ITIMER_PROF, process CPU time; VERIF_CASE_CPU_S, default 180 s): a case that needs more is reported
+// on stderr (CPU-BUDGET-EXCEEDED) and the process exits with status 97, which the driver treats like a crash of that case
+void caseCpuGuard(bool on);
 
 // hooks (EZC3D_VERIF): per-thread read-work budget and declared-data guard
 struct HookState {
